@@ -1,4 +1,5 @@
 import MorfuseModel.Archive.Value
+import MorfuseModel.Archive.Dict
 import Driver.Util
 /-! driver for the Archive model (properties C10, C11).
 
@@ -148,6 +149,35 @@ def showW : WItem → String
 
 def showWs (l : List WItem) : String := " ".intercalate (l.map showW)
 
+/-! read-backs: a ConstString value is printed as the text its `const_str` denotes in the reading dictionary
+    (what the harness prints: `dictionary.Get(id)`), ids taken in load order -/
+mutual
+partial def showValueD (d : Dict) : Value → List Nat → String × List Nat
+  | .constString (some _), ids =>
+    match ids with
+    | i :: r => ((match d.text i with | some bs => s!"k {toHex bs}" | none => "k0"), r)
+    | [] => ("k?", [])
+  | .constArray h rc es, ids =>
+    let r := showElemsD d es ids
+    (s!"ca {h} {rc} {es.length}" ++ (if es.isEmpty then "" else " " ++ " ".intercalate r.1), r.2)
+  | v, ids => (showValue v, ids)
+partial def showElemsD (d : Dict) : List (Lbl × Value) → List Nat → List String × List Nat
+  | [], ids => ([], ids)
+  | (_, v) :: es, ids =>
+    let a := showValueD d v ids
+    let b := showElemsD d es a.2
+    (a.1 :: b.1, b.2)
+end
+
+partial def showWsD (d : Dict) : List WItem → List Nat → List String
+  | [], _ => []
+  | .item i :: ws, ids => showItem i :: showWsD d ws ids
+  | .value s v :: ws, ids =>
+    let a := showValueD d v ids
+    s!"v {s} {a.1}" :: showWsD d ws a.2
+
+def showLoaded (L : Loaded) : String := " ".intercalate (showWsD L.dict L.items L.ids)
+
 def errName : Err → String
   | .invalidHeader => "InvalidArchiveHeader" | .wrongVersion => "WrongVersion" | .typeError => "TypeError"
   | .invalidClass => "InvalidClass" | .objectClassError => "ObjectClassError"
@@ -163,14 +193,14 @@ def pcName : PC → String
 def fnv (s : String) : Nat :=
   (s.toList.foldl (fun (h : UInt32) c => (h ^^^ UInt32.ofNat (c.toNat % 256)) * 16777619) (2166136261 : UInt32)).toNat
 
-def showOutcome (r : Except Err (List WItem)) : String :=
+def showOutcome (r : Except Err Loaded) : String :=
   match r with
-  | .ok items => "ok " ++ showWs items
+  | .ok L => "ok " ++ showLoaded L
   | .error e => "err " ++ errName e
 
-def shortOutcome (r : Except Err (List WItem)) : String :=
+def shortOutcome (r : Except Err Loaded) : String :=
   match r with
-  | .ok items => s!"ok:{fnv (showWs items)}"
+  | .ok L => s!"ok:{fnv (showLoaded L)}"
   | .error e => errName e
 
 /-- run-length summary `a-b:outcome` of a list of outcomes indexed from `base` -/
@@ -196,7 +226,9 @@ structure St where
 
 def cfg : Cfg := Cfg.current
 
-def dec (st : St) (bs : Bytes) : Except Err (List WItem) := decodeW cfg st.classes st.info st.sch bs
+/-- the archive is loaded by a script context whose dictionary holds none of the writer's strings (the
+    harness: a new `ScriptContext`; its predefined strings do not matter as long as the load side interns) -/
+def dec (st : St) (bs : Bytes) : Except Err Loaded := decodeWD cfg st.classes st.info st.sch [] bs
 
 def step (st : St) (t : List String) : St × String :=
   match t with
@@ -213,6 +245,10 @@ def step (st : St) (t : List String) : St × String :=
       let st' := { st with info := info, w := w, calls := calls, sch := schemaW w, bytes := bytes, have_ := true }
       (st', toHex bytes ++ " | " ++ showOutcome (dec st' bytes))
     | _, _, _, _ => (st, "bad-op")
+  | ["rsame"] =>
+    -- the same archive loaded in the writing context (whose dictionary holds every text): same answer
+    if !st.have_ then (st, "bad-op") else
+    (st, showOutcome (decodeWD cfg st.classes st.info st.sch (constTextsW st.w) st.bytes))
   | ["layout"] =>
     if !st.have_ then (st, "bad-op") else
     (st, rle 0 ((layout st.info st.calls).map pcName))
